@@ -1043,7 +1043,15 @@ func oracleCdx(op M, res any, exec func(M) any) []Finding {
 			return x
 		}
 		if !Equal(g(again), g(r)) {
-			add("C02", "a second write-then-read pass changes the document further")
+			// the one recorded way this happens: a licence list of two or more entries was truncated by the
+			// first pass (known finding), so the concluded-licence text derived from it changes once more
+			if ids := truncatedLicenceNodes(d); len(ids) > 0 && Equal(dropConcluded(g(again), ids), dropConcluded(g(r), ids)) {
+				for _, id := range ids {
+					add("C02", "licence list of node %q was truncated, so a second pass changes its concluded-licence text", id)
+				}
+			} else {
+				add("C02", "a second write-then-read pass changes the document further")
+			}
 		}
 		// every permutation of the stored edge list gives the same result
 		d2 := Normalize(d).(M)
@@ -1191,3 +1199,35 @@ var CdxStream = &Stream{
 }
 
 var _ = sbom.Node_FILE
+
+// truncatedLicenceNodes: identifiers of the nodes of d that carry two or more licences
+func truncatedLicenceNodes(d M) []string {
+	var ids []string
+	nl, _ := d["nl"].(M)
+	for _, n := range asList(nl["nodes"]) {
+		if len(asList(attrOf(n.(M), "Licenses"))) >= 2 {
+			ids = append(ids, asStr(n.(M)["id"]))
+		}
+	}
+	sort.Strings(ids)
+	return ids
+}
+
+// dropConcluded: a copy of a canonical node list without the LicenseConcluded attribute of the named nodes
+func dropConcluded(nl any, ids []string) any {
+	m, ok := Normalize(nl).(M)
+	if !ok {
+		return nl
+	}
+	named := map[string]bool{}
+	for _, id := range ids {
+		named[id] = true
+	}
+	for _, n := range asList(m["nodes"]) {
+		nm, _ := n.(M)
+		if a, ok := nm["a"].(M); ok && named[asStr(nm["id"])] {
+			delete(a, "LicenseConcluded")
+		}
+	}
+	return m
+}
